@@ -240,7 +240,16 @@ class CoopQueue:
     def put_nowait(self, item):
         self.items.append(item)
 
-    put = put_nowait
+    def put(self, item, block=True, timeout=None):
+        self.items.append(item)
+
+    def get_nowait(self):
+        if not self.items:
+            raise _queue.Empty
+        return self.items.pop(0)
+
+    def empty(self):
+        return not self.items
 
     def task_done(self):
         pass
@@ -299,6 +308,10 @@ class Patches:
         _CUR["sched"] = self.sched
         self.saved = (aio.Queue, aio.Future, ft.Future, concurrent.futures.Future,
                       threading.Thread.start, threading.Thread.join)
+        # also for code that looks the classes up through the module at call time
+        self.saved_q = (_queue.Queue, _queue.SimpleQueue)
+        _queue.Queue = CoopQueue
+        _queue.SimpleQueue = CoopQueue
         aio.Queue = CoopQueue
         aio.Future = CoopFuture
         ft.Future = CoopFuture
@@ -313,6 +326,7 @@ class Patches:
 
         (aio.Queue, aio.Future, ft.Future, concurrent.futures.Future,
          threading.Thread.start, threading.Thread.join) = self.saved
+        _queue.Queue, _queue.SimpleQueue = self.saved_q
         _CUR["sched"] = None
         return False
 
